@@ -275,6 +275,17 @@ func (u *Unit) contractCall(st *State, instr ssa.Instruction, fs *FuncSpec, name
 		u.addOblig(st, site+".pre."+labelOr(c, "requires"), c.Text, clauseProps(c, fs), g, instr, "precondition of "+name+": "+c.Text)
 		st.assume(g)
 	}
+	if fs == u.fs && st.frame != nil && st.frame.depth == 0 {
+		// self-recursive call: the variant decreases and is bounded below
+		for i, c := range fs.Decreases {
+			if i >= len(u.entryVariant) {
+				break
+			}
+			callee := u.evalTerm(env, c.Expr)
+			g := And(Le(IntLit(0), u.entryVariant[i]), Lt(callee, u.entryVariant[i]))
+			u.addOblig(st, site+".variant", c.Text, clauseProps(c, fs), g, instr, "termination of the recursion: the variant "+c.Text+" is non-negative at entry and smaller at this recursive call")
+		}
+	}
 	if fs.Unlocked {
 		u.checkUnlocked(st, instr, site, name)
 	}
@@ -282,6 +293,24 @@ func (u *Unit) contractCall(st *State, instr ssa.Instruction, fs *FuncSpec, name
 		return u.iterateCall(st, instr, fs, name, args, sig)
 	}
 	pre := st.snapshot()
+	// objects private to this activation that are handed to a callee which may write memory are
+	// no longer private: the callee's writes reach them (no private-object frame across the call)
+	if fs.Effect != "pure" && fs.Effect != "opaque" && !strings.HasPrefix(fs.Effect, "fields ") {
+		for _, a := range args {
+			switch av := a.(type) {
+			case T:
+				st.escape(av)
+			case *Ptr:
+				if av.kind == pCell && av.cell != nil {
+					// address of a local: the callee may write the local through it (handled by the cell model)
+					continue
+				}
+				if av.base.S != "" {
+					st.escape(av.base)
+				}
+			}
+		}
+	}
 	switch fs.Effect {
 	case "pure", "opaque":
 	case "reentrant":
@@ -358,7 +387,7 @@ func (u *Unit) contractCall(st *State, instr ssa.Instruction, fs *FuncSpec, name
 					for _, p := range st.private {
 						st.assume(Neq(arr, p.ref))
 					}
-					st.private = append(st.private, privRef{arr, "arr:" + string(u.sortOf(st2.Elem()))})
+					st.private = append(st.private, privRef{arr, "arr:" + string(u.sortOf(st2.Elem())), ""})
 					u.note("ownership: the slice returned by " + name + " is not retained or aliased by the callee")
 				}
 			}
@@ -871,7 +900,7 @@ func (u *Unit) appendOp(st *State, instr ssa.Instruction, cc *ssa.CallCommon, ar
 	freshArr := u.fresh("arr.append", SInt)
 	al := u.heapGet(st.view(), "alloc", ArrSort(SInt, SBool))
 	st.assumeDef(Implies(Not(fits), And(Not(Select(al, freshArr)), Lt(IntLit(0), freshArr))))
-	st.private = append(st.private, privRef{freshArr, "arr:" + string(es)})
+	st.private = append(st.private, privRef{freshArr, "arr:" + string(es), ""})
 	srcPrivate := u.isPrivateArr(st, s)
 	u.heapSet(st, "alloc", Ite(fits, al, Store(al, freshArr, True)))
 	newCap := u.fresh("cap.append", SInt)
@@ -923,7 +952,7 @@ func (u *Unit) appendOp(st *State, instr ssa.Instruction, cc *ssa.CallCommon, ar
 	u.sliceArr[resC.S] = resArr.S
 	if srcPrivate {
 		// appending to a private (or nil) slice yields a private slice
-		st.private = append(st.private, privRef{resArr, "arr:" + string(es)})
+		st.private = append(st.private, privRef{resArr, "arr:" + string(es), ""})
 	}
 	u.heapSet(st, hn, h2)
 	return res
